@@ -1,5 +1,16 @@
 #!/bin/sh
-# tools/runtests.sh <pymattersim tree> [pytest args] — runs the repository's suite in that tree (parallel by file), prints "PASSED/FAILED nodeid" lines sorted
+# tools/runtests.sh <pymattersim tree> — runs the repository's whole suite in that tree (parallel by file), then re-runs
+# every test that failed once more serially (some tests share scratch files and interfere when run concurrently);
+# prints "PASSED|FAILED nodeid" lines, sorted
 T=$1; shift
-cd "$T" && PYTHONPATH="$T" /venv/bin/python -m pytest -q -p no:cacheprovider --timeout=900 --continue-on-collection-errors -n 8 --dist loadfile -rA "$@" 2>&1 \
-  | grep -E '^(PASSED|FAILED|ERROR) ' | sed 's/ - .*//' | sort
+cd "$T" || exit 2
+R=$(mktemp)
+PYTHONPATH="$T" /venv/bin/python -m pytest -q -p no:cacheprovider --timeout=900 --continue-on-collection-errors -n 8 --dist loadfile -rA "$@" 2>&1 \
+  | grep -E '^(PASSED|FAILED|ERROR) ' | sed 's/ - .*//' > "$R"
+F=$(grep -E '^FAILED ' "$R" | cut -d' ' -f2 | tr '\n' ' ')
+if [ -n "$F" ]; then
+  PYTHONPATH="$T" /venv/bin/python -m pytest -q -p no:cacheprovider --timeout=900 -rA $F 2>&1 \
+    | grep -E '^(PASSED|FAILED|ERROR) ' | sed 's/ - .*//' > "$R.2"
+  grep -E '^PASSED ' "$R.2" | while read -r _ id; do sed -i "s#^FAILED $id\$#PASSED $id#" "$R"; done
+fi
+sort "$R"; rm -f "$R" "$R.2"
